@@ -53,3 +53,10 @@ func (l *logLogger) Println(v ...interface{})          { l.l.Println(v...) }
 func (l *logLogger) SetFlags(flag int)                 { l.l.SetFlags(flag) }
 func (l *logLogger) SetOutput(w io.Writer)             { l.l.SetOutput(w) }
 func (l *logLogger) Writer() io.Writer                 { return l.l.Writer() }
+func (l *logLogger) SetPrefix(prefix string)           { l.l.SetPrefix(prefix) }
+
+// logStd wraps the standard logger.
+var logStd = &logLogger{log.Default()}
+
+// logDefault returns the wrapped standard logger.
+func logDefault() *logLogger { return logStd }
